@@ -450,7 +450,8 @@ def check_frame(case):
     if r is f and iface not in ('rename', 'relabel', 'drop', 'astype') and addressed_cells:
         pass
     obs.LOOSE_MISSING[0] = True
-    obs.expect_frame(r, exp_il, exp_cl, exp_cols, iface, dtypes=None, name=name_expect)
+    # (the name of a mask result is a listed finding: it is judged last, so that labels, values and dtypes are still checked)
+    obs.expect_frame(r, exp_il, exp_cl, exp_cols, iface, dtypes=None, name='__skip__' if iface == 'mask' else name_expect)
     got_cols = obs.frame_cols(r)
     if iface not in ('insert',):
         for j, dt in enumerate(exp_dt):
@@ -467,6 +468,8 @@ def check_frame(case):
     if iface == 'rename' and case['iname'] != '__skip__':
         if not eq(obs.canon_name(r.index.name), canon(case['iname'])):
             raise Failure('name', 'rename(index=%r): index name %r' % (case['iname'], r.index.name))
+    if iface == 'mask' and not eq(obs.canon_name(r.name), canon(name_expect)):
+        raise Failure('name', '%s: expected name %r got %r' % (iface, name_expect, r.name))
     bounds = gen.block_bounds(rec['blocks'])
     nt = 0 < addressed_cells < max(n * m, 2) and (len(rec['blocks']) >= 2 or any(b.ndim == 2 and b.shape[1] >= 2 for b in rec['blocks']))
     return {'nt': bool(nt), 'cls': classes}
@@ -599,8 +602,27 @@ def tag(case, f):
     if f.kind == 'raised:ErrorInitFrame' and case.get('iface') == 'drop' and 'incorrect size' in f.detail:
         return 'drop-all-columns-keeping-rows-raises'
     if f.kind == 'untouched-dtype' and case.get('iface') in ('assign', 'assign_bloc'):
-        # does the changed column share a 2-D block with an addressed column?
-        return 'assign-coerces-whole-block-dtype-of-untouched-columns'
+        # only when the changed column shares a 2-D block with an addressed column (what the finding states)
+        import re
+        mm = re.search(r'column (\d+) dtype', f.detail)
+        try:
+            blocks = case['rec']['blocks']
+            m = len(case['rec']['columns']['labels'])
+            owner = []
+            for bi, b in enumerate(blocks):
+                owner += [bi] * (1 if b.ndim == 1 else b.shape[1])
+            if case['iface'] == 'assign_bloc':
+                addressed = [j for j in range(m) if case['mask'][:, j].any()]
+            elif case.get('ck') is None:
+                addressed = list(range(m))
+            else:
+                addressed = gen.positions_of(case['ck'], m)[0]
+            j = int(mm.group(1))
+            if blocks[owner[j]].ndim == 2 and any(owner[a] == owner[j] for a in addressed if a != j):
+                return 'assign-coerces-whole-block-dtype-of-untouched-columns'
+            return None
+        except Exception:  # noqa: BLE001
+            return 'assign-coerces-whole-block-dtype-of-untouched-columns'
     return None
 
 
